@@ -341,6 +341,9 @@ def main_run(prop: Prop, ctx: Ctx) -> int:
         rc = 1
     ev.violations = len(new_w) + (1 if (fails and not new_w) else 0)
     ev.cov["broken_ties"] = [dict(kind=f.kind, name=f.name) for f in fails[:20]]
+    if ev.cov["discharged"] < 1:   # nothing was proved on this run: do not present proof-level counts
+        ev.cov["obligations_not_discharged"] = ev.cov.pop("obligations")
+        ev.cov.pop("discharged")
     ev.write()
     if rc == 0:
         print("OK property=%s tier=%s theorems=%d/%d evaluations=%d wall=%.1fs" % (
